@@ -87,6 +87,21 @@ def Slice.popAll (cmp : Int → Int → Bool) : Nat → List Int → Option (Lis
       | none => none
       | some (s2, xs) => some (s2, x :: xs)
 
+/-- `PopAll()` left by the consumer when it has received `k` elements:
+`for x := range s.PopAll() { …; if received == k { break } }` — `yield` returns false at its
+`k`-th call, i.e. the loop `for { e, ok := s.Pop(); if !ok { break }; if !yield(e) { break } }`
+makes `k` `Pop` calls (fewer when the heap runs empty). -/
+def Slice.popAllK (cmp : Int → Int → Bool) : Nat → List Int → Option (List Int × List Int)
+  | 0, s => some (s, [])
+  | k + 1, s =>
+    match Slice.pop cmp s with
+    | none => none
+    | some (s1, _, false) => some (s1, [])
+    | some (s1, x, true) =>
+      match Slice.popAllK cmp k s1 with
+      | none => none
+      | some (s2, xs) => some (s2, x :: xs)
+
 /-! ### the client-visible operations of `Slice[T]` as one step function
 
 `setFix i v` is the client's `s.Values[i] = v; s.Fix(i)` (the assignment itself panics when `i`
@@ -101,6 +116,7 @@ inductive SOp where
   | fix (i : Int)
   | setFix (i : Nat) (v : Int)
   | popAll
+  | popAllN (k : Nat)
 
 inductive SRet where
   | unit
@@ -118,6 +134,7 @@ def stepS (cmp : Int → Int → Bool) (s : List Int) : SOp → Option (List Int
   | .setFix i v =>
     if i < s.length then (Slice.fix cmp (s.set i v) (i : Int)).map fun s1 => (s1, .unit) else none
   | .popAll => (Slice.popAll cmp (s.length + 1) s).map fun (s1, xs) => (s1, .vals xs)
+  | .popAllN k => (Slice.popAllK cmp k s).map fun (s1, xs) => (s1, .vals xs)
 
 /-! ### `Heap[T]` with `*Element[T]` handles
 
@@ -263,6 +280,19 @@ def HMem.popAll (cmp : Int → Int → Bool) (h : Nat) : Nat → HMem → Option
       | none => none
       | some (m2, xs) => some (m2, m1.val.get e :: xs)
 
+/-- `h.PopAll()` left by the consumer when it has received `k` elements: `k` `Pop` calls (fewer
+when the heap runs empty); returns the popped elements in order. -/
+def HMem.popAllK (cmp : Int → Int → Bool) (h : Nat) : Nat → HMem → Option (HMem × List Nat)
+  | 0, m => some (m, [])
+  | k + 1, m =>
+    match m.pop cmp h with
+    | none => none
+    | some (m1, none) => some (m1, [])
+    | some (m1, some e) =>
+      match HMem.popAllK cmp h k m1 with
+      | none => none
+      | some (m2, es) => some (m2, e :: es)
+
 /-! ### the client-visible operations of `Heap[T]` as one step function
 
 `HState` = the element memory plus `h.cmp` of each heap (the comparator it was created with by
@@ -297,12 +327,14 @@ inductive HOp where
   | fix (h : Fin 2) (e : Nat)
   | setFix (h : Fin 2) (e : Nat) (v : Int)
   | popAll (h : Fin 2)
+  | popAllN (h : Fin 2) (k : Nat)
 
 inductive HRet where
   | unit
   | handle (e : Option Nat)
   | len (n : Nat)
   | vals (xs : List Int)
+  | popped (es : List Nat)
 
 def stepH (st : HState) : HOp → Option (HState × HRet)
   | .init h c vs => (st.m.init c h.val vs).map fun m1 => ({ st.setCmp h.val c with m := m1 }, .unit)
@@ -319,6 +351,8 @@ def stepH (st : HState) : HOp → Option (HState × HRet)
   | .popAll h =>
     (HMem.popAll (st.cmp h.val) h.val ((st.m.arr h.val).length + 1) st.m).map
       fun (m1, xs) => ({ st with m := m1 }, .vals xs)
+  | .popAllN h k =>
+    (HMem.popAllK (st.cmp h.val) h.val k st.m).map fun (m1, es) => ({ st with m := m1 }, .popped es)
 
 /-! ### generic `Interface[T]` functions on a recording container
 
